@@ -525,6 +525,11 @@ class Gen(object):
                     continue
                 # field size: the struct's max size when static, else a dynamic size
                 sz = getattr(st, "static_bytes", None)
+                if sz is None:
+                    # constant locations with a conditional tail: run-time size varies, yet the compiler insists on a
+                    # field of exactly the largest extent
+                    from vlib import refsem as _rs
+                    sz = _rs.compiler_fixed_size(st)
                 name = self.fname(used, "sub")
                 if sz is None and not st.is_dynamic:
                     continue
